@@ -268,11 +268,10 @@ theorem judgeEfun_events (sc : Scripts) (cs : List Cmd) : judgeEfun (events sc c
   rw [key cs {}]
   rfl
 
-/-- the part of the top theorem that is proved: the clause oracles for `twice` / `outside` / `crash` / `malformed`
-    and for `efun` accept every trace of the model; what `judgeEv` can still report on a model trace are only the
-    data clauses (`starved`, `fifo`, `idleWait`), which the model-level theorems `no_starvation`,
-    `loop_bound_sufficient`, `per_user_fifo` carry. -/
-theorem judgeEv_events_eq_data (sc : Scripts) (cs : List Cmd) : judgeEv (events sc cs) = judgeData (events sc cs) := by
+/-- the part of the top theorem proved here: the clause oracles for `twice` / `outside` / `crash` / `malformed`
+    and for `efun` accept every trace of the model -/
+theorem judgeEv_events_eq_data (sc : Scripts) (cs : List Cmd) :
+    judgeEv (events sc cs) = judgeFifo (events sc cs) ++ judgeLive (events sc cs) := by
   unfold judgeEv
   rw [judgeStruct_events, judgeEfun_events]
   rfl
